@@ -40,11 +40,13 @@ class Member(object):
       self.additional_endpoints = {}
 
   def __repr__(self):
-    return 'Member(%s)' % self.service_endpoint
+    return 'Member(%s)' % (self.service_endpoint,)
 
 
 def make_world(env, rng, kind, lb_params=None, open_delay=None, get_servers_delay=0.0,
-               get_servers_failures=0, get_servers_dups=0, endpoint_name=None):
+               get_servers_failures=0, get_servers_dups=0, endpoint_name=None, provider=None):
+  """provider: a ready-made ServerSetProvider to put under the balancer instead of the scripted
+  one (w.ss is then unused)."""
   Member.named = endpoint_name
   I = _imports()
   AsyncResult, ClientMessageSink = I['AsyncResult'], I['ClientMessageSink']
@@ -269,7 +271,7 @@ def make_world(env, rng, kind, lb_params=None, open_delay=None, get_servers_dela
   HeapBalancerSink.Node.registry = w.nodes
 
   params = dict(lb_params or {})
-  params['server_set_provider'] = w.ss
+  params['server_set_provider'] = provider if provider is not None else w.ss
   prov = cls.Builder(**params)
   prov.next_provider = Provider()
   tprov = I['TimeoutSinkProvider']()
